@@ -45,6 +45,46 @@ def _run(program, uid, cnt, owner, caller="ctxA"):
     return sorted(set(res), key=repr)
 
 
+def case_table(ctx, program, rid):
+    # host fact (read from the installed library's source, nothing is run): the registry lower-cases both names
+    import inspect
+    from homeassistant.core import ServiceRegistry
+    reg = getattr(ServiceRegistry, "_async_register", None) or ServiceRegistry.async_register
+    tree = ast.parse(__import__("textwrap").dedent(inspect.getsource(reg)))
+    lowered = {n.func.value.id for n in ast.walk(tree) if isinstance(n, ast.Call) and isinstance(n.func, ast.Attribute) and n.func.attr == "lower" and isinstance(n.func.value, ast.Name)}
+    if not {"domain", "service"} <= lowered:
+        ctx.skip(rid, REG, "the installed Home Assistant does not lower-case service names: spellings are distinct services")
+        return
+
+    def step(uid, heap, caller, domain, service):
+        pol = FlowPolicy(program, events=["cls.hass.services.async_register", "cls.hass.services.async_remove"], may_raise_all=False, cancel=False)
+        args = {"cls": ClassV("Function"), "global_ctx_name": Const(caller), "domain": Const(domain), "service": Const(service)}
+        if uid == REG:
+            args.update({"callback": Sym(("cb",)), "supports_response": Sym(("sr",))})
+        ex = exits(run_flow(program, uid, pol, args=args, heap=dict(heap)))
+        if len(ex) != 1:
+            raise AnalysisError(f"{uid}: {len(ex)} exits on a concrete registry")
+        k, c, d = ex[0]
+        evs = [e[1].split(".")[-1] for e in c.trace if e[0] == "call"]
+        return k, getattr(c.env.get("$exc"), "cls", None), evs, {kk: v for kk, v in c.heap.items() if kk.startswith("Function.")}
+
+    empty = {"Function.service_cnt": DictV(()), "Function.service2global_ctx": DictV(())}
+    k1, e1, ev1, h1 = step(REG, empty, "ctxA", "tools", "Ping")
+    k2, e2, ev2, h2 = step(REG, h1, "ctxB", "tools", "ping")
+    ctx.check(k1 == "return" and k2 == "raise" and e2 == "ValueError" and not ev2, rid, REG, "another context, other spelling: refused",
+              msg=f"after ctxA declared tools.Ping, ctxB declaring tools.ping ends with {k2} {e2} {ev2}: Home Assistant replaces ctxA's handler by ctxB's (one service), "
+              f"a second context takes over a name that another context owns", key="case takeover", node=program.func(REG), rel="function.py")
+    # same context, two spellings on two functions: removing one must keep the service registered
+    k3, e3, ev3, h3 = step(REG, h1, "ctxA", "tools", "ping")
+    k4, e4, ev4, h4 = step(REM, h3, "ctxA", "tools", "ping")
+    ctx.check(k3 == "return" and k4 == "return" and "async_remove" not in ev4, rid, REM, "two spellings in one context: the service stays while one declaration is alive",
+              msg=f"ctxA declares tools.Ping and tools.ping (one Home Assistant service); removing tools.ping gives {ev4}: the service is removed although tools.Ping still declares it",
+              key="case remove", node=program.func(REM), rel="function.py")
+    k5, e5, ev5, h5 = step(REM, h4, "ctxA", "tools", "Ping")
+    ctx.check(k5 == "return" and ev5 == ["async_remove"], rid, REM, "the last declaration removes the service", msg=f"removing the last spelling gives {ev5}", key="case last remove",
+              node=program.func(REM), rel="function.py")
+
+
 def refcount_table(ctx, program, rid):
     """Transition table of service_register / service_remove on the finite model count x owner."""
     for cnt in (None, 0, 1, 2, 3):
@@ -84,6 +124,9 @@ def run(ctx):
     ctx.rule("R12.1", "service_register/service_remove implement the reference-count + ownership transition table", floor=20)
     refcount_table(ctx, program, "R12.1")
 
+    ctx.rule("R12.10", "Home Assistant lower-cases domain and service names, so 'tools.Ping' and 'tools.ping' are one service: the reference count and the owner are kept per "
+             "service, not per spelling - a second context is refused whatever case it uses, and removing one spelling does not remove the service another declaration still uses", floor=3)
+    case_table(ctx, program, "R12.10")
     ctx.rule("R12.2", "every registration site passes the global context name as owner, the removal site passes the same, and each registered name is recorded for removal", floor=4)
     sites = []
     for u in program.functions():
